@@ -282,6 +282,10 @@ func runPacketCase(c pktCase, col *collector, sec *vh.Section) []byte {
 					if wfOK && badEv {
 						sf.Finding = "F20c" // class: write-level fields parse, some event's own non-empty field text does not
 					}
+					if !wfOK {
+						sf.Kind = "malformed-write-fields-acked"
+						sf.What = "a write packet whose WRITE-LEVEL field text does not parse is accepted (it must be rejected)"
+					}
 					col.specFailAt(at, sf)
 				case strings.HasPrefix(spec, "ok "):
 					want := "ok " + vh.HxS(string(c.Tags)) + " " + strings.TrimPrefix(spec, "ok ")
@@ -334,6 +338,12 @@ func sectionPacket(rng *vh.Rng, corpus []pktCase) {
 	n := 600
 	if args.Thorough {
 		n = 3000
+	}
+	// directed: every malformed write-level field text, with 0, 1 and 2 well-formed events — must be rejected by init
+	for _, wf := range invalidFieldTexts {
+		for k := 0; k < 3; k++ {
+			runPacketCase(pktCase{Tags: "a=b", WFields: HS(wf), Evs: genPktEvents(rng, k, false), Cut: -1}, col, sec)
+		}
 	}
 	for i := 0; i < n; i++ {
 		k := rng.PickI([]int{0, 1, 1, 2, 3, 5})
